@@ -363,7 +363,21 @@ SPEC = {
                   "(parse_type_for_usage_as_modelled); the discipline of seeded mutant C03-5 is a decide-checked negation witness. "
                   "A swizzle of a scalar or a vector names at most four components (fix c805c03: the former negation witness is "
                   "now the rejection theorem elab_rejects_swizzle_longer_than_four; the judgment demands at most four slots of every "
-                  "swizzle node, so elab_sound gives it for every accepted program); no negation witness against the code is left.",
+                  "swizzle node, so elab_sound gives it for every accepted program); no negation witness against the code is left. "
+                  "Return statements and re-entrant body checking (Model/RetScope, Thm.C03R): the return type lives in the scope "
+                  "pushed for the function (ScopeData::function_return_type) and a return asks the scope chain for the innermost one; "
+                  "naming a struct template with new arguments, or calling a function template, in the middle of a function body "
+                  "checks the method bodies / the instance body right there (save current_scope, jump to the template's scope, push / "
+                  "re-enter, pop, restore). Proved by mutual structural induction over statements, bodies and method lists, for any "
+                  "number of instantiations, methods and nesting depth: an accepted body leaves the scope chain as it found it and "
+                  "its checked returns are exactly those of a purely structural reference semantics in which a return belongs to the "
+                  "function node that textually contains it (return_type_is_enclosing_functions); every direct return of a function "
+                  "is converted to that function's type whatever was instantiated before it; every accepted return is returnable from "
+                  "its own function; a body with an unconvertible direct return after any episodes is never accepted. The source facts "
+                  "(get_current_return_type = search_scopes over function_return_type, search_scopes walks parents, revisit_function "
+                  "only re-enters the scope, the two writers and the one caller of set_function_return_type, both return arms ask "
+                  "get_current_return_type, the field list of Context, both instantiation paths restore current_scope) are re-extracted "
+                  "(Gen.RetScope) and decided in returnTypeComesFromTheScopeChain; seeded mutant C03-6 falsifies it.",
     "rule": "C03.conv = one row of the exhaustive find/get_target_type table over 8 scalar kinds x {scalar, vec1-4, 2 matrices} "
             "+ enums + structs x modifier sets x {lvalue,rvalue}. C03.prog = (local variable types, function prototypes, return "
             "type, one statement) compiled as an RSSL program through the real type_check: every unary operator on every "
@@ -387,6 +401,16 @@ SPEC = {
             "decides constness from the keywords of the request alone (const on any layer or at the use site) and fails every "
             "accepted write to such an object: each keyword carried by a typedef x 8 use-site sets x 5 storages x 4 write forms on "
             "6 base types, 37 chains x 20 use-site sets with both carriers, and random points of the whole product. "
+            "C03.ret = a program tree (free functions, ordinary structs with methods, and inside bodies: return of a value of "
+            "each of 7 types or bare, nested blocks, struct templates with 0-3 methods named for the first time as a local "
+            "declaration / twice / with initialiser / in a cast / in sizeof, function templates called with explicit arguments, "
+            "template argument and return types possibly the enclosing template's T, nested to depth 3) spelled as an RSSL "
+            "program; observation = per function the types of its Return expressions, or the diagnostic with got / want types; the "
+            "oracle decides from the request alone which function a return belongs to and whether its operand is returnable: an "
+            "ill-typed program must be rejected, every Return of an accepted program has exactly its own function's declared "
+            "type: 4 (thorough 8) function types x 5 (9) last-method types x 5 forms x arguments x well- and ill-typed operands "
+            "directly after the episode and in a block, function-template and ordinary-struct controls, two-level nestings with "
+            "the ill-typed return at each level, 1 500 (12 000) random trees. "
             "C03.src = a raw program (reproducers with buffers / cbuffers), oracle only. non-trivial = a statement containing an "
             "operator, call, projection, constructor, definition or control statement.",
     "trusted_base": [
@@ -414,6 +438,16 @@ SPEC = {
         "Spec/ElabX.lean (StmtsTyped, InitTyped, RetExact, projection chains; MutablePlace / ConstTy / ProjOf) is our reading of "
         "'every initialiser, return ... receives operands of exactly the types it requires' and of 'write to const or non-lvalue "
         "expressions'",
+        "tools/gens/c03.py RetScope: pinned bodies of get_current_return_type / search_scopes / revisit_function / revisit_scope / "
+        "set_function_return_type, the writers of function_return_type and the callers of set_function_return_type / "
+        "get_current_return_type over typer/src/**, the fields of struct Context, the save / jump / restore statements of "
+        "ensure_struct_template and build_function_template_body, parse_function_body's revisit / pop",
+        "hand-written Model/RetScope.lean (the scope arena seen as the chain search_scopes walks; frames carry "
+        "function_return_type and the binding of T; instantiation episodes; the declaration-or-expression fallback; conversion "
+        "restricted to float / int / bool / float2 / int2 / two structs / void) — tied by the C03.ret correspondence; "
+        "Thm.C03R.specItems (a return belongs to the function node that contains it) is our reading of 'every return receives an "
+        "operand of exactly the type it requires'; the C03.ret oracle (harness/src/c03/ret.rs) decides ownership and "
+        "returnability from the request tree, never from the module's signatures",
         "the C03.decl oracle (harness/src/c03/decl.rs) reads constness off the keywords written in the request (typedef layers, "
         "template argument, use site), never off a type the checker registered",
         "the harness oracle (harness/src/c03.rs: check rules of Walk::expr, the declaration-based write oracle Walk::place) is "
@@ -431,6 +465,10 @@ SPEC = {
         "in-out / interpolation / precise keywords next to type modifiers, cbuffer members and return types are not generated "
         "by C03.decl; Walk::place still reads the registered type of a variable for programs of the other streams (they "
         "declare every type directly, where registered type = written type is what C03.decl checks with an empty chain)",
+        "C03.ret: templates are declared at the root scope (no namespaces), one type parameter, methods without parameters, "
+        "function templates called with explicit template arguments; the operand of a return is a global / the member v / the "
+        "parameter x (its elaboration is the other streams' business); method signatures are parsed before the bodies (an "
+        "unresolvable T in a later signature is outside the model: `unsupported`)",
         "variables of the generated programs have unique names v<i>; a definition declares one variable; user function "
         "parameters are not arrays",
         "signature parameter types carry no modifier: strip_param_type is mirrored by ElabX.stripParamType (applied by the "
